@@ -1,5 +1,5 @@
 import GoomVerif.Props.C02
-/-! Recorded observation (not an obligation): a mocker handle that was cancelled, then REPLACED in the builder's cache by a
+/-! Known finding F27-c02-orphan (KNOWN_FINDINGS.jsonl key `orphaned-handle`; counter-example, not an obligation): a mocker handle that was cancelled, then REPLACED in the builder's cache by a
 fresh lookup of the same function, and then applied again through the old handle is unknown to the builder — `Reset` does
 not restore the function.  Reproduced on the real code (goom 6fb1f90) with
 `python3 check.py C02 --replay` on `1 | k 0 f 3 ; A 0 f 3 1 ; C 0 f 3 ; c 0 f 3 ; A 0 f 3 2 ; x 0` (model and implementation
@@ -11,5 +11,15 @@ open Patch
 theorem orphaned_handle_escapes_reset :
     let s := run C02.exEnv (init C02.exEnv) [.keep 0 3, .applyH 0 3 1, .cancelH 0 3, .cancel 0 3, .applyH 0 3 2, .reset 0]
     s.text 3 ≠ C02.exEnv.pristine 3 ∧ s.cache 0 3 ≠ s.handle 0 3 := by decide
+
+/-- the Reset clause at full strength is false for goom as it is: one builder, keep a handle, mock, cancel, look the function up
+    again (the builder replaces its cache entry), mock again through the kept handle, Reset — the function stays patched -/
+theorem not_resetRestoresAll : ¬ C02.ResetRestoresAll C02.exEnv := by
+  intro h
+  have := h [.keep 0 3, .applyH 0 3 1, .cancelH 0 3, .cancel 0 3, .applyH 0 3 2] 0
+    (by intro op hop; simp only [List.mem_cons, List.mem_nil_iff, or_false] at hop
+        rcases hop with rfl | rfl | rfl | rfl | rfl <;> rfl) 3
+  revert this
+  decide
 
 end C02.Findings
